@@ -48,6 +48,8 @@ pub struct Program {
 }
 
 thread_local! {
+    /// C01 mode: only the handle-uniqueness oracles are evaluated
+    static ONLY_UNIQUE: Cell<bool> = const { Cell::new(false) };
     static ACTIVE: Cell<bool> = const { Cell::new(false) };
     static YIELDS: Cell<u64> = const { Cell::new(0) };
 }
@@ -214,6 +216,7 @@ struct ExecResult {
 }
 
 fn run_program(p: &Program, prop_c17: bool) -> ExecResult {
+    let only_unique = ONLY_UNIQUE.with(|c| c.get());
     ledger_reset(None);
     let mut w = World::new();
     w.register::<CVec>();
@@ -339,7 +342,7 @@ fn run_program(p: &Program, prop_c17: bool) -> ExecResult {
     };
     let mut viol: Option<String> = None;
     let mut fail = |m: String| {
-        if viol.is_none() {
+        if viol.is_none() && (!only_unique || m.starts_with("duplicate-handle") || m.starts_with("shared-index") || m.starts_with("panic")) {
             viol = Some(m);
         }
     };
@@ -587,7 +590,8 @@ pub fn main() {
     let cli = Cli::parse();
     crate::util::install_quiet_hook();
     let prop_c17 = cli.property == "C17";
-    if cli.property != "C10" && cli.property != "C17" {
+    let prop_c01 = cli.property == "C01";
+    if cli.property != "C10" && cli.property != "C17" && cli.property != "C01" {
         machinery_error(&format!("mc-conc does not serve property {}", cli.property));
     }
     if let Some(path) = &cli.replay {
@@ -596,6 +600,7 @@ pub fn main() {
         let p: Program = serde_json::from_value(v["program"].clone()).unwrap_or_else(|e| machinery_error(&format!("bad program: {e}")));
         let sched: Vec<usize> = serde_json::from_value(v["schedule"].clone()).unwrap_or_default();
         let c17 = v["property"].as_str() == Some("C17");
+        ONLY_UNIQUE.with(|c| c.set(v["property"].as_str() == Some("C01")));
         let r1 = explore_program(&p, 0, c17, Some(sched.clone()));
         let r2 = explore_program(&p, 0, c17, Some(sched));
         let a = r1.violation.map(|v| v.0);
@@ -618,6 +623,7 @@ pub fn main() {
     let t0 = std::time::Instant::now();
     let progs = programs(cli.thorough());
     let results = crate::util::par_map(&progs, |(p, bound)| {
+        ONLY_UNIQUE.with(|c| c.set(prop_c01));
         // iterate the bound: 0, 1, 2, ... (the first counterexample has the fewest preemptions)
         let mut per_bound = vec![];
         let mut last = None;
@@ -691,9 +697,10 @@ pub fn main() {
         "max_schedule_points": maxpts,
         "yield_points_hit": yields,
     });
-    if prop_c17 {
-        // merge into the evidence written by mc-hist for C17
-        let path = cli.root.join("evidence").join("C17.json");
+    if prop_c17 || prop_c01 {
+        // merge into the evidence written by mc-hist for this property
+        let pid = cli.property.clone();
+        let path = cli.root.join("evidence").join(format!("{}.json", pid));
         if let Ok(txt) = std::fs::read_to_string(&path) {
             if let Ok(mut v) = serde_json::from_str::<serde_json::Value>(&txt) {
                 v["coverage"]["concurrent_part"] = coverage;
@@ -703,21 +710,21 @@ pub fn main() {
         let known = crate::report::Known::load(&cli.root);
         let mut bad = 0;
         for (n, f) in findings.iter().enumerate() {
-            if known.is_known("C17", &f.key) {
-                println!("KNOWN-FINDING: property=C17 {} [{}]", f.key, f.oracle);
+            if known.is_known(&pid, &f.key) {
+                println!("KNOWN-FINDING: property={} {} [{}]", pid, f.key, f.oracle);
                 continue;
             }
             bad += 1;
             if bad <= 3 {
                 let dir = cli.root.join("replays");
                 let _ = std::fs::create_dir_all(&dir);
-                let path = dir.join(format!("C17-{}-conc-{}.json", cli.tier, n));
+                let path = dir.join(format!("{}-{}-conc-{}.json", pid, cli.tier, n));
                 let mut rep = f.replay.clone();
-                rep["property"] = json!("C17");
+                rep["property"] = json!(pid);
                 rep["oracle"] = json!(f.oracle);
                 let _ = std::fs::write(&path, serde_json::to_string_pretty(&rep).unwrap());
                 println!("# {}: {}", f.key, f.oracle);
-                println!("VIOLATION property=C17 replay={}", path.display());
+                println!("VIOLATION property={} replay={}", pid, path.display());
             }
         }
         std::process::exit(if bad > 0 { 1 } else { 0 });
